@@ -141,6 +141,27 @@ pub struct BlockingManager {
     shutdown: Arc<Mutex<bool>>,
 }
 
+#[cfg(feature = "verif")]
+impl BlockingManager {
+    /// Verification hook (read-only): waiters per key of one database, in FIFO order, sorted by key
+    pub fn verif_registry_dump(&self, db: DatabaseIndex) -> Vec<(Vec<u8>, Vec<u64>)> {
+        let mut out = Vec::new();
+        if let Some(reg) = self.registries.get(db) {
+            let reg = reg.read().unwrap();
+            for (key, clients) in reg.blocked_on_key.iter() {
+                out.push((key.clone(), clients.iter().map(|c| c.conn_id).collect()));
+            }
+        }
+        out.sort();
+        out
+    }
+    
+    /// Verification hook (read-only): number of queued wake-up requests
+    pub fn verif_wake_queue_len(&self) -> usize {
+        self.wake_queue.len()
+    }
+}
+
 impl BlockingManager {
     pub fn new(num_databases: usize) -> Self {
         let mut registries = Vec::with_capacity(num_databases);
